@@ -212,7 +212,7 @@ def check_socket_level():
 
                 def run(ch):
                     wire = F.Wire()
-                    sock = F.FragSocket(F.Wire(), wire, ch)
+                    sock = F.FragSocket(F.Wire(), wire, ch, write_menu=("full", "one", "half", "allbutone"))   # short sends only
                     try:
                         Channel(SocketStream(sock), compress=comp).send(p)
                     except Exception as ex:     # noqa
